@@ -156,3 +156,36 @@ def split_bool(o):
         except Infeasible:
             pass
     return res
+
+
+def query_trem(st, xp, c):
+    """sign set of the truncated remainder of xp by the positive constant c on this path, without forking;
+    None if the analysis never formed that division"""
+    from .absint import ALL
+    p = st.norm(xp)
+    if all(v % c == 0 for v in p.values()):
+        return frozenset((0,)), None
+    for cand in (xp, p):
+        a = st.atoms.lookup(('tdiv', pfreeze(cand), pfreeze(pconst(c))))
+        if a is not None:
+            R = padd(cand, pscale(patom(a), c), -1)
+            return st.sign(R), patom(a)
+    m, r = st.cong_poly(p)
+    if m > 1 and m % c == 0:
+        return (frozenset((0,)) if r % c == 0 else frozenset((-1, 1))), None
+    return None, None
+
+
+def res_parts(v):
+    if isinstance(v, Agg) and v.kind == RESULT:
+        return ('ok' if v.variant == 0 else 'err', v.fields[0])
+    return None
+
+
+def variant_name(db, v):
+    adt = db.adts.get(v.kind)
+    if adt:
+        for var in adt['variants']:
+            if var['index'] == v.variant:
+                return var['name']
+    return '?'
